@@ -226,7 +226,100 @@ func pathConds(info *types.Info, par map[ast.Node]ast.Node, n ast.Node) []condFa
 			break
 		}
 	}
-	return splitFacts(out)
+	return splitFacts(tableFacts(info, par, n, out))
+}
+
+// factProgram is the program being analysed (set once per run); pathConds uses it to resolve
+// constant lookup tables.
+var factProgram *Program
+
+// tableFacts rewrites facts about the `ok` of a comma-ok lookup in a constant table into what they
+// say about the key: `v, ok := T[k]` with T = {K1: …, K2: …} makes `ok` equivalent to
+// `k == K1 || k == K2`. Rules that ask "under which values of k is this reached" then see the same
+// thing for a table as for a switch or an if-chain.
+func tableFacts(info *types.Info, par map[ast.Node]ast.Node, n ast.Node, facts []condFact) []condFact {
+	if factProgram == nil || len(facts) == 0 {
+		return facts
+	}
+	var root ast.Node
+	for q := n; q != nil; q = par[q] {
+		root = q
+	}
+	var pk *packages.Package
+	for _, cand := range factProgram.All {
+		if cand.TypesInfo == info {
+			pk = cand
+		}
+	}
+	if pk == nil || root == nil {
+		return facts
+	}
+	out := make([]condFact, 0, len(facts))
+	for _, f := range facts {
+		g := flattenNot(f)
+		id, isId := ast.Unparen(g.e).(*ast.Ident)
+		if !isId {
+			out = append(out, f)
+			continue
+		}
+		okObj := info.Uses[id]
+		var repl ast.Expr
+		ast.Inspect(root, func(m ast.Node) bool {
+			as, isAs := m.(*ast.AssignStmt)
+			if !isAs || repl != nil || len(as.Lhs) != 2 || len(as.Rhs) != 1 || okObj == nil || usesObj(info, as.Lhs[1]) != okObj {
+				return true
+			}
+			key, entries, isTbl := constTable(factProgram, pk, as.Rhs[0])
+			if !isTbl {
+				return true
+			}
+			// ok must not be reassigned elsewhere
+			for _, en := range entries {
+				if en.Key == nil {
+					return true
+				}
+			}
+			var disj ast.Expr
+			for _, en := range entries {
+				keyIdent := tableKeyExpr(info, pk, en)
+				if keyIdent == nil {
+					return true
+				}
+				eq := &ast.BinaryExpr{X: key, Op: token.EQL, Y: keyIdent}
+				if disj == nil {
+					disj = eq
+				} else {
+					disj = &ast.BinaryExpr{X: disj, Op: token.LOR, Y: eq}
+				}
+			}
+			repl = disj
+			return true
+		})
+		if repl == nil {
+			out = append(out, f)
+			continue
+		}
+		out = append(out, condFact{repl, g.neg})
+	}
+	return out
+}
+
+// tableKeyExpr returns the key expression of a table entry as written in the table's literal (so
+// that types.Info knows it).
+func tableKeyExpr(info *types.Info, pk *packages.Package, en tableEntry) ast.Expr {
+	var found ast.Expr
+	for _, f := range pk.Syntax {
+		if found != nil {
+			break
+		}
+		ast.Inspect(f, func(m ast.Node) bool {
+			if kv, ok := m.(*ast.KeyValueExpr); ok && kv.Value == en.Val {
+				found = kv.Key
+			}
+			return found == nil
+		})
+	}
+	return found
 }
 
 // splitFacts expands conjunctions of positive facts and disjunctions of negative facts, then
